@@ -298,6 +298,17 @@ class PyCpuBus:
             self._run([0xDA] + a3 + [CPU_SCRATCH])
 
 
+def documented_canon(cfg: Dict[str, Any], impl: str, addr: int) -> int:
+    """the documented canonical form of an address: 24-bit wrap, then (where the configuration has the RAM mirror switched on -
+    a Rust-only switch, on by default in these configurations) the 32 KiB mirror of 0x80000-0xBFFFF onto 0xB8000-0xBFFFF.
+    Returned in two 12-bit limbs packed as one integer below 2^24, so it stays inside TLC's integers."""
+    c = addr & 0xFFFFFF
+    mirror = impl.startswith("rs") and cfg.get("mirror", True)       # (CoreRuntime switches it on as well)
+    if mirror and 0x80000 <= c <= 0xBFFFF:
+        c = 0xB8000 + (c & 0x7FFF)
+    return c
+
+
 def probe(bus, cells: List[int]):
     """W[b] = cells whose byte changes when a marker is stored through cell b (then restored)."""
     W = []
@@ -323,6 +334,7 @@ def trace_for(bus, cfgname: str, cells: List[int], tid: int, rnd: random.Random,
     # class representative = least connected cell; initial byte per representative
     ev = [{"tid": tid, "ev": "Init", "impl": bus.impl, "cfg": cfgname, "n": len(cells), "W": W, "kind": [kind(a) for a in cells], "nxt": nxt,
            "ro": [declared_readonly(CONFIGS[cfgname], a) if (a & 0xFFFFFF) == a or True else 0 for a in cells],
+           "canon": [documented_canon(CONFIGS[cfgname], bus.impl, a) for a in cells],
            "init": init, "c": 0, "w": 0, "v": 0, "ret": 0}]
     ops = []
     for _ in range(length):
